@@ -41,9 +41,28 @@ type gOp struct {
 // cache of the resolved declaration would make a later instantiation inherit an earlier one's types)
 const gPrelude = "<?php\nclass GU {}\nclass GV {}\nclass Box<T> { public T $v; public function put(T $x) { return 1; } }\nclass Pair<A, B> { public A $a; public B $b; }\nfunction setv($o, $x) { $o->v = $x; }\nfunction seta($o, $x) { $o->a = $x; }\nfunction setb($o, $x) { $o->b = $x; }\n"
 
+// settings (a first pseudo-operation {Op: "setting"}): the same declarations and history inside a namespace, or
+// declared in one namespace and imported into another with use (GV under an alias); the type arguments written
+// in the source then need resolving against the namespace / the use list
+const gClasses = "class GU {}\nclass GV {}\nclass Box<T> { public T $v; public function put(T $x) { return 1; } }\nclass Pair<A, B> { public A $a; public B $b; }\n"
+const gHelpers = "function setv($o, $x) { $o->v = $x; }\nfunction seta($o, $x) { $o->a = $x; }\nfunction setb($o, $x) { $o->b = $x; }\n"
+
+var gSettings = map[string]string{
+	"namespace": "<?php\nnamespace shop;\n" + gClasses + gHelpers,
+	"use":       "<?php\nnamespace lib;\n" + gClasses + "namespace app;\nuse lib\\GU;\nuse lib\\GV;\nuse lib\\Box;\nuse lib\\Pair;\n" + gHelpers,
+}
+
 func gScript(ops []gOp) string {
 	var sb strings.Builder
-	sb.WriteString(gPrelude)
+	if len(ops) > 0 && ops[0].Op == "setting" {
+		sb.WriteString(strings.ReplaceAll(gSettings[ops[0].Class], "Throwable", "\\Throwable"))
+	} else {
+		sb.WriteString(gPrelude)
+	}
+	catch := "Throwable"
+	if len(ops) > 0 && ops[0].Op == "setting" {
+		catch = "\\Throwable"
+	}
 	ni := 0
 	for k, op := range ops {
 		switch op.Op {
@@ -51,11 +70,11 @@ func gScript(ops []gOp) string {
 			fmt.Fprintf(&sb, "$o%d = new %s<%s>();\n", ni, op.Class, strings.Join(op.Args, ", "))
 			ni++
 		case "write":
-			fmt.Fprintf(&sb, "try { $o%d->%s = %s; __obs(\"w%d\", \"ok\"); __obs(\"r%d\", $o%d->%s); } catch (Throwable $e) { __obs(\"w%d\", \"rej\"); __obs(\"m%d\", $e->getMessage()); }\n", op.Inst, op.Mem, gVals[op.Val].Lit, k, k, op.Inst, op.Mem, k, k)
+			fmt.Fprintf(&sb, "try { $o%d->%s = %s; __obs(\"w%d\", \"ok\"); __obs(\"r%d\", $o%d->%s); } catch (%s $e) { __obs(\"w%d\", \"rej\"); __obs(\"m%d\", $e->getMessage()); }\n", op.Inst, op.Mem, gVals[op.Val].Lit, k, k, op.Inst, op.Mem, catch, k, k)
 		case "hwrite":
-			fmt.Fprintf(&sb, "try { set%s($o%d, %s); __obs(\"w%d\", \"ok\"); __obs(\"r%d\", $o%d->%s); } catch (Throwable $e) { __obs(\"w%d\", \"rej\"); __obs(\"m%d\", $e->getMessage()); }\n", op.Mem, op.Inst, gVals[op.Val].Lit, k, k, op.Inst, op.Mem, k, k)
+			fmt.Fprintf(&sb, "try { set%s($o%d, %s); __obs(\"w%d\", \"ok\"); __obs(\"r%d\", $o%d->%s); } catch (%s $e) { __obs(\"w%d\", \"rej\"); __obs(\"m%d\", $e->getMessage()); }\n", op.Mem, op.Inst, gVals[op.Val].Lit, k, k, op.Inst, op.Mem, catch, k, k)
 		case "call":
-			fmt.Fprintf(&sb, "try { $o%d->put(%s); __obs(\"w%d\", \"ok\"); } catch (Throwable $e) { __obs(\"w%d\", \"rej\"); __obs(\"m%d\", $e->getMessage()); }\n", op.Inst, gVals[op.Val].Lit, k, k, k)
+			fmt.Fprintf(&sb, "try { $o%d->put(%s); __obs(\"w%d\", \"ok\"); } catch (%s $e) { __obs(\"w%d\", \"rej\"); __obs(\"m%d\", $e->getMessage()); }\n", op.Inst, gVals[op.Val].Lit, k, catch, k, k)
 		}
 	}
 	return sb.String()
@@ -88,6 +107,9 @@ func c19Judge(pool *sb.Pool, rec *sb.Rec, ops []gOp) []*failure {
 	var out []*failure
 	seen := map[string]bool{}
 	for k, op := range ops {
+		if op.Op == "setting" {
+			continue
+		}
 		if op.Op == "inst" {
 			insts = append(insts, inst{op.Class, op.Args})
 			if _, ok := firstArgs[op.Class]; !ok {
@@ -164,7 +186,7 @@ func TestC19(t *testing.T) {
 	cfg := sb.LoadConfig("C19")
 	rec := sb.NewRec(cfg)
 	defer rec.Flush()
-	rec.R.Rule = "histories of instantiations of generic classes with 1-2 type parameters (Box<T>, Pair<A,B>) over {int, string, array, user class}, interleaved with typed property writes and typed method calls on any live instance with values of five kinds; complete enumeration of all histories up to length 3 (thorough: 4) over Box, rapid histories with up to 6 instantiations including Pair; each write's acceptance and read-back is compared with the instance's own type arguments. Non-trivial = at least two instantiations of the same generic class with different arguments precede a judged write; distinct by history."
+	rec.R.Rule = "histories of instantiations of generic classes with 1-2 type parameters (Box<T>, Pair<A,B>) over {int, string, array, user class}, interleaved with typed property writes and typed method calls on any live instance with values of five kinds; complete enumeration of all histories up to length 3 (thorough: 4) over Box, rapid histories with up to 6 instantiations including Pair; the same enumeration inside a namespace and with the classes imported by use; fresh new-sites evaluated for the first time by 8 goroutines at once (600 sites per shard, thorough 20000); each write's acceptance and read-back is compared with the instance's own type arguments. Non-trivial = at least two instantiations of the same generic class with different arguments precede a judged write; distinct by history."
 	pool := &sb.Pool{}
 	defer pool.Close()
 	dl := time.Now().Add(budget(cfg, 50, 600))
@@ -185,6 +207,7 @@ func TestC19(t *testing.T) {
 		}
 		return
 	}
+	c19Concurrent(cfg, rec, pool)
 	maxLen := 3
 	if cfg.Thorough() {
 		maxLen = 4
@@ -193,9 +216,9 @@ func TestC19(t *testing.T) {
 	complete := true
 	var gen func(prefix []gOp, ninst int)
 	gen = func(prefix []gOp, ninst int) {
-		if len(prefix) == maxLen || (len(prefix) > 0 && prefix[len(prefix)-1].Op != "inst" && len(prefix) >= 2) {
+		if len(prefix) == maxLen || (len(prefix) > 0 && prefix[len(prefix)-1].Op != "inst" && prefix[len(prefix)-1].Op != "setting" && len(prefix) >= 2) {
 			// judge complete histories, and every history that ends in a write
-			if len(prefix) > 0 && prefix[len(prefix)-1].Op != "inst" {
+			if len(prefix) > 0 && prefix[len(prefix)-1].Op != "inst" && prefix[len(prefix)-1].Op != "setting" {
 				idx++
 				if cfg.Mine(idx) {
 					if time.Now().After(dl) {
@@ -227,6 +250,11 @@ func TestC19(t *testing.T) {
 		}
 	}
 	gen(nil, 0)
+	for _, st := range []string{"namespace", "use"} {
+		maxLen++ // the setting is not a step of the history
+		gen([]gOp{{Op: "setting", Class: st}}, 0)
+		maxLen--
+	}
 	rec.R.Exhaustive = complete
 	rec.Flush()
 	total := 6000 / cfg.NShards
@@ -235,6 +263,9 @@ func TestC19(t *testing.T) {
 	}
 	rapidLoop(t, rec, "hist", total, 100, dl, func(rt *rapid.T) *failure {
 		var ops []gOp
+		if st := rapid.SampledFrom([]string{"", "", "namespace", "use"}).Draw(rt, "setting"); st != "" {
+			ops = append(ops, gOp{Op: "setting", Class: st})
+		}
 		type live struct{ class string }
 		var insts []live
 		n := rapid.IntRange(2, 14).Draw(rt, "len")
